@@ -197,10 +197,16 @@ def plainAxis : Sel × Nat → Option (List Nat)
   | (.new, _) => some [0]
   | _ => none
 
-/-- are the advanced entries next to each other (nothing else in between)? -/
-def advAdjacent (l : List (Sel × Nat)) : Bool :=
-  let trimmed := (l.dropWhile (fun e => !e.1.isAdvanced)).reverse.dropWhile (fun e => !e.1.isAdvanced)
-  trimmed.all (fun e => e.1.isAdvanced)
+/-- integer, list, array and mask entries form the advanced-index group (when a list/array is present). -/
+def Item.isAdv : Item → Bool
+  | .int _ | .ilist _ | .blist _ | .iarr _ | .barr _ => true
+  | _ => false
+
+/-- are the advanced entries next to each other in the index expression as written?  A slice, a new axis or
+the Ellipsis (even one that expands to nothing) in between separates them. -/
+def itemsAdjacent (items : List Item) : Bool :=
+  let trimmed := (items.dropWhile (fun it => !it.isAdv)).reverse.dropWhile (fun it => !it.isAdv)
+  trimmed.all Item.isAdv
 
 /-- output axes when the advanced group stays in place: the group's axis replaces its first member. -/
 def axesInPlace (grp : List Nat) : Bool → List (Sel × Nat) → List (List Nat)
@@ -232,9 +238,9 @@ def npGetitem (shape : List Nat) (items : List Item) : Except Err NPSel :=
   if (items.filter Item.isEllipsis).length > 1 then .error .indexError else
   let consumed := (items.filter Item.consumes).length
   if consumed > shape.length then .error .indexError else
-  let items := if items.any Item.isEllipsis then expandEllipsis (shape.length - consumed) items
-               else items ++ List.replicate (shape.length - consumed) (.slice .all)
-  match assignAxes items (shape.zip (strides shape)) with
+  let expanded := if items.any Item.isEllipsis then expandEllipsis (shape.length - consumed) items
+                  else items ++ List.replicate (shape.length - consumed) (.slice .all)
+  match assignAxes expanded (shape.zip (strides shape)) with
   | .error e => .error e
   | .ok sels =>
     if sels.any (fun e => e.1.isFancy) then
@@ -243,7 +249,7 @@ def npGetitem (shape : List Nat) (items : List Item) : Except Err NPSel :=
       | .ok none => .error .indexError
       | .ok (some k) =>
         let grp := (List.range k).map fun j => advOffset j sels
-        if advAdjacent sels then .ok ⟨0, axesInPlace grp false sels, sels⟩
+        if itemsAdjacent items then .ok ⟨0, axesInPlace grp false sels, sels⟩
         else .ok ⟨0, grp :: sels.filterMap plainAxis, sels⟩
     else
       .ok ⟨advOffset 0 sels, sels.filterMap plainAxis, sels⟩
